@@ -1,14 +1,292 @@
 import Model.Util
 /-
-  Model/Bellman.lean — (stub) executable model; see DESIGN.md.  Core Lean only.
+  Model/Bellman.lean — executable model of the value-based learn step (property C08).
+
+  What is modelled (the *logic* of `update()/learn()` and `soft_update()` of DQN, CQN, RainbowDQN's
+  target tracking, DDPG, TD3, MADDPG, MATD3):
+
+  * the Bellman target          y = r + γ·(1 − d)·q'
+  * how q' is selected from the target network's outputs: max over actions (DQN, CQN), double-Q
+    gather (argmax of the ONLINE net, value of the TARGET net), twin minimum (TD3, MATD3), the
+    centralised critic's value (MADDPG, MATD3: one value per row, per agent its own r and d)
+  * the loss each learner minimises as a function of network outputs (`nn.MSELoss`, mean reduction)
+  * `soft_update`: θ⁻ ← τ·θ + (1 − τ)·θ⁻ element-wise over `zip(online, target)` (zip semantics:
+    the shorter list decides — a target that exposes no tensors is not updated at all)
+  * the policy-delay schedule: `learn_counter += 1; if learn_counter % policy_freq == 0: …`
+
+  What is NOT modelled (inputs of the model): network forward passes, the optimiser, the CQL
+  regulariser `logsumexp(Q).mean() − Q.mean()`, target-policy smoothing noise, float rounding.
+  Core Lean only; numbers are exact `Rat`.
 -/
+namespace Bellman
+
+/-! ### selectors -/
+
+def rmax (a b : Rat) : Rat := if a ≤ b then b else a
+def rmin (a b : Rat) : Rat := if a ≤ b then a else b
+
+/-- `tensor.max(dim=1)[0]` of one row (rows are never empty in the real code) -/
+def maxL : List Rat → Rat
+  | [] => 0
+  | [x] => x
+  | x :: y :: r => rmax x (maxL (y :: r))
+
+/-- `tensor.argmax(dim=1)` of one row: index of the FIRST maximal entry -/
+def argmaxL : List Rat → Nat
+  | [] => 0
+  | [_] => 0
+  | x :: y :: r => if maxL (y :: r) ≤ x then 0 else argmaxL (y :: r) + 1
+
+/-- `tensor.gather(1, idx)` of one row -/
+def gather (l : List Rat) (i : Nat) : Rat := l.getD i 0
+
+/-! ### Bellman target and loss -/
+
+/-- `y_j = rewards + gamma * q_target * (1 - dones)` -/
+def y (r γ d q' : Rat) : Rat := r + γ * (1 - d) * q'
+
+/-- `nn.MSELoss()(q, y)` with the default mean reduction (same shapes, no broadcasting) -/
+def mse (qs ys : List Rat) : Rat :=
+  (List.zipWith (fun q t => (q - t) * (q - t)) qs ys).sum / (qs.length : Rat)
+
+/-- a row of a discrete-action learner after the networks have been evaluated -/
+structure QRow where
+  r : Rat
+  d : Rat
+  q : Rat                -- Q_online(s, a) (already gathered at the action taken)
+  nextOn : List Rat      -- Q_online(s', ·)   (used by the double-Q selector only)
+  nextTg : List Rat      -- Q_target(s', ·)
+deriving Repr
+
+/-- a row of a single-critic learner (DDPG; one agent of MADDPG with its centralised critic) -/
+structure CRow where
+  r : Rat
+  d : Rat
+  q : Rat                -- Q(s, a)            (MADDPG: Q_i(x, a_1 … a_N))
+  q' : Rat               -- Q_target(s', a')   (MADDPG: Q_i⁻(x', μ_1⁻(o_1') … μ_N⁻(o_N')))
+deriving Repr
+
+/-- a row of a twin-critic learner (TD3; one agent of MATD3) -/
+structure TRow where
+  r : Rat
+  d : Rat
+  q1 : Rat
+  q2 : Rat
+  n1 : Rat               -- Q1_target(s', a')
+  n2 : Rat               -- Q2_target(s', a')
+deriving Repr
+
+def targetsDQN (γ : Rat) (rows : List QRow) : List Rat :=
+  rows.map (fun t => y t.r γ t.d (maxL t.nextTg))
+
+def targetsDouble (γ : Rat) (rows : List QRow) : List Rat :=
+  rows.map (fun t => y t.r γ t.d (gather t.nextTg (argmaxL t.nextOn)))
+
+/-- `DQN.update` with `double=False`: the value returned by `learn` -/
+def lossDQN (γ : Rat) (rows : List QRow) : Rat := mse (rows.map (·.q)) (targetsDQN γ rows)
+
+/-- `DQN.update` with `double=True` -/
+def lossDouble (γ : Rat) (rows : List QRow) : Rat := mse (rows.map (·.q)) (targetsDouble γ rows)
+
+/-- `CQN.learn`: `q1_loss = cql1_loss + 0.5 * mse(q_eval, q_target)`; `cql` is an opaque input -/
+def lossCQN (dbl : Bool) (cql γ : Rat) (rows : List QRow) : Rat :=
+  cql + (1 / 2) * (if dbl then lossDouble γ rows else lossDQN γ rows)
+
+def targetsDDPG (γ : Rat) (rows : List CRow) : List Rat := rows.map (fun t => y t.r γ t.d t.q')
+
+/-- `DDPG.learn`: the critic loss -/
+def lossDDPG (γ : Rat) (rows : List CRow) : Rat := mse (rows.map (·.q)) (targetsDDPG γ rows)
+
+def targetsTD3 (γ : Rat) (rows : List TRow) : List Rat :=
+  rows.map (fun t => y t.r γ t.d (rmin t.n1 t.n2))
+
+/-- `TD3.learn`: `criterion(q1, y) + criterion(q2, y)` with the twin-minimum target -/
+def lossTD3 (γ : Rat) (rows : List TRow) : Rat :=
+  mse (rows.map (·.q1)) (targetsTD3 γ rows) + mse (rows.map (·.q2)) (targetsTD3 γ rows)
+
+/-- `MADDPG.learn`: one critic loss per agent, each from its own rewards, dones and critic -/
+def lossMADDPG (γ : Rat) (agents : List (List CRow)) : List Rat := agents.map (lossDDPG γ)
+
+/-- `MATD3.learn` -/
+def lossMATD3 (γ : Rat) (agents : List (List TRow)) : List Rat := agents.map (lossTD3 γ)
+
+/-! ### soft update and the delay schedule -/
+
+/-- `for e, t in zip(net.parameters(), target.parameters()): t.copy_(tau*e + (1-tau)*t)`
+    on the flattened weights -/
+def blend (τ : Rat) (θ θt : List Rat) : List Rat :=
+  List.zipWith (fun e t => τ * e + (1 - τ) * t) θ θt
+
+/-- `n` soft updates towards fixed online weights `θ` -/
+def softN (τ : Rat) (θ : List Rat) : Nat → List Rat → List Rat
+  | 0, t => t
+  | n + 1, t => blend τ θ (softN τ θ n t)
+
+/-- closed form of `softN` -/
+def closedN (τ : Rat) (θ : List Rat) (n : Nat) (θt : List Rat) : List Rat :=
+  List.zipWith (fun e t => e + (1 - τ) ^ n * (t - e)) θ θt
+
+/-- `self.learn_counter += 1; if self.learn_counter % self.policy_freq == 0:` — does the learn
+    step entered with counter `c` update the actor and the targets? -/
+def fires (pf c : Nat) : Bool := (c + 1) % pf == 0
+
+/-- which of the next `n` learn steps (entered with counter `c`) move the targets -/
+def sched (pf : Nat) : Nat → Nat → List Bool
+  | _, 0 => []
+  | c, n + 1 => fires pf c :: sched pf (c + 1) n
+
+/-- consecutive learn steps of a delayed learner; `θs` are the online weights at the moment of
+    each step's soft update (they are whatever the optimiser made them) -/
+def runTargets (pf : Nat) (τ : Rat) : Nat → List (List Rat) → List Rat → Nat × List Rat
+  | c, [], t => (c, t)
+  | c, θ :: rest, t => runTargets pf τ (c + 1) rest (if fires pf c then blend τ θ t else t)
+
+end Bellman
+
+/-! ### line protocol -/
 namespace Bellman
 open Util
 
 structure IOState where
-  dummy : Nat := 0
+  pf : Nat := 1
+  tau : Rat := 1
+  counter : Nat := 0
+  target : List Rat := []
+
+/-- consume `n` records of `w` numbers -/
+def records (w : Nat) (xs : List Rat) : List (List Rat) := chunks w xs
+
+def mkQRows (k : Nat) (dbl : Bool) (xs : List Rat) : Option (List QRow) :=
+  let w := if dbl then 3 + 2 * k else 3 + k
+  if k = 0 ∨ xs.length % w ≠ 0 then none else
+  some ((records w xs).map (fun rec =>
+    let r := rec.getD 0 0
+    let d := rec.getD 1 0
+    let q := rec.getD 2 0
+    let rest := rec.drop 3
+    if dbl then { r := r, d := d, q := q, nextOn := rest.take k, nextTg := rest.drop k }
+    else { r := r, d := d, q := q, nextOn := [], nextTg := rest }))
+
+def mkCRows (xs : List Rat) : Option (List CRow) :=
+  if xs.length % 4 ≠ 0 then none else
+  some ((records 4 xs).map (fun rec =>
+    { r := rec.getD 0 0, d := rec.getD 1 0, q := rec.getD 2 0, q' := rec.getD 3 0 }))
+
+def mkTRows (xs : List Rat) : Option (List TRow) :=
+  if xs.length % 6 ≠ 0 then none else
+  some ((records 6 xs).map (fun rec =>
+    { r := rec.getD 0 0, d := rec.getD 1 0, q1 := rec.getD 2 0, q2 := rec.getD 3 0,
+      n1 := rec.getD 4 0, n2 := rec.getD 5 0 }))
+
+/-- the empty batch: `MSELoss` of empty tensors is NaN in the real code, never a number -/
+def showLoss (n : Nat) (v : Rat) : String := if n = 0 then "nan" else showRat v
+
+def showBools (l : List Bool) : String := " ".intercalate (l.map showBool)
 
 def step (s : IOState) : List String → IOState × String
+  | ["y", r, g, d, q] =>
+    match parseRat? r, parseRat? g, parseRat? d, parseRat? q with
+    | some r, some g, some d, some q => (s, showRat (y r g d q))
+    | _, _, _, _ => (s, "bad-op")
+  | "loss" :: kind :: g :: rest =>
+    match parseRat? g with
+    | none => (s, "bad-op")
+    | some γ =>
+      match kind, rest with
+      | "dqn", k :: ws =>
+        match parseNat? k, parseRats? ws with
+        | some k, some xs =>
+          match mkQRows k false xs with
+          | some rows => (s, showLoss rows.length (lossDQN γ rows))
+          | none => (s, "bad-op")
+        | _, _ => (s, "bad-op")
+      | "double", k :: ws =>
+        match parseNat? k, parseRats? ws with
+        | some k, some xs =>
+          match mkQRows k true xs with
+          | some rows => (s, showLoss rows.length (lossDouble γ rows))
+          | none => (s, "bad-op")
+        | _, _ => (s, "bad-op")
+      | "cqn", dbl :: cql :: k :: ws =>
+        match parseNat? dbl, parseRat? cql, parseNat? k, parseRats? ws with
+        | some dbl, some cql, some k, some xs =>
+          if dbl > 1 then (s, "bad-op") else
+          match mkQRows k (dbl = 1) xs with
+          | some rows => (s, showLoss rows.length (lossCQN (dbl = 1) cql γ rows))
+          | none => (s, "bad-op")
+        | _, _, _, _ => (s, "bad-op")
+      | "ddpg", ws =>
+        match parseRats? ws with
+        | some xs =>
+          match mkCRows xs with
+          | some rows => (s, showLoss rows.length (lossDDPG γ rows))
+          | none => (s, "bad-op")
+        | none => (s, "bad-op")
+      | "td3", ws =>
+        match parseRats? ws with
+        | some xs =>
+          match mkTRows xs with
+          | some rows => (s, showLoss rows.length (lossTD3 γ rows))
+          | none => (s, "bad-op")
+        | none => (s, "bad-op")
+      | "maddpg", a :: n :: ws =>
+        -- `a` agents, `n` rows each, agent-major
+        match parseNat? a, parseNat? n, parseRats? ws with
+        | some a, some n, some xs =>
+          if a = 0 ∨ n = 0 ∨ xs.length ≠ a * n * 4 then (s, "bad-op") else
+          match allSome ((chunks (n * 4) xs).map mkCRows) with
+          | some agents => (s, showRats (lossMADDPG γ agents))
+          | none => (s, "bad-op")
+        | _, _, _ => (s, "bad-op")
+      | "matd3", a :: n :: ws =>
+        match parseNat? a, parseNat? n, parseRats? ws with
+        | some a, some n, some xs =>
+          if a = 0 ∨ n = 0 ∨ xs.length ≠ a * n * 6 then (s, "bad-op") else
+          match allSome ((chunks (n * 6) xs).map mkTRows) with
+          | some agents => (s, showRats (lossMATD3 γ agents))
+          | none => (s, "bad-op")
+        | _, _, _ => (s, "bad-op")
+      | _, _ => (s, "bad-op")
+  | "blend" :: t :: k :: ws =>
+    -- blend τ k θ_1 … θ_k θ⁻_1 … θ⁻_k
+    match parseRat? t, parseNat? k, parseRats? ws with
+    | some τ, some k, some xs =>
+      if xs.length ≠ 2 * k then (s, "bad-op")
+      else if τ ≤ 0 then (s, "reject")               -- every constructor asserts tau > 0
+      else (s, showRats (blend τ (xs.take k) (xs.drop k)))
+    | _, _, _ => (s, "bad-op")
+  | "softn" :: form :: t :: n :: k :: ws =>
+    -- softn iter|closed τ n k θ… θ⁻…  : n soft updates towards fixed online weights
+    match parseRat? t, parseNat? n, parseNat? k, parseRats? ws with
+    | some τ, some n, some k, some xs =>
+      if xs.length ≠ 2 * k then (s, "bad-op")
+      else if τ ≤ 0 then (s, "reject")
+      else if form = "iter" then (s, showRats (softN τ (xs.take k) n (xs.drop k)))
+      else if form = "closed" then (s, showRats (closedN τ (xs.take k) n (xs.drop k)))
+      else (s, "bad-op")
+    | _, _, _, _ => (s, "bad-op")
+  | ["sched", pf, c, n] =>
+    match parseNat? pf, parseNat? c, parseNat? n with
+    | some pf, some c, some n =>
+      if pf = 0 then (s, "reject")                    -- constructors assert policy_freq >= 1
+      else (s, showBools (sched pf c n))
+    | _, _, _ => (s, "bad-op")
+  | "init" :: pf :: t :: c :: ws =>
+    -- a learner whose targets are being followed: policy_freq, tau, learn_counter, target weights
+    match parseNat? pf, parseRat? t, parseNat? c, parseRats? ws with
+    | some pf, some τ, some c, some xs =>
+      if pf = 0 ∨ τ ≤ 0 then (s, "reject")
+      else ({ pf := pf, tau := τ, counter := c, target := xs }, "ok")
+    | _, _, _, _ => (s, "bad-op")
+  | "step" :: ws =>
+    -- one learn step; the arguments are the online weights after the optimiser step
+    match parseRats? ws with
+    | some θ =>
+      if θ.length ≠ s.target.length then (s, "bad-op") else
+      let (c', t') := runTargets s.pf s.tau s.counter [θ] s.target
+      ({ s with counter := c', target := t' },
+        showBool (fires s.pf s.counter) ++ " " ++ toString c' ++ " " ++ showRats t')
+    | none => (s, "bad-op")
   | _ => (s, "bad-op")
 
 end Bellman
